@@ -30,7 +30,7 @@ LEVEL_NOTE = ("Trusts the classification of exceptions by their metadata (World.
 TECHNIQUE = "deterministic simulation, whole-API programs with random fault plans, exception-provenance and addressee monitors, livelock cap"
 
 PROGRAM = ("ProgError", "ProgErrorA", "ProgErrorB", "ProgKeyError", "ProgAssertion",
-           "ProgSystemExit", "ProgKeyboardInterrupt")
+           "ProgSystemExit", "ProgKeyboardInterrupt", "SimProgError")
 PRIVILEGED = ("AssertionError", "SystemExit", "KeyboardInterrupt")
 API = ("TaskCancelled", "TaskClosed", "VolatileTaskClosed", "StreamClosed", "ResourcesUnavailable",
        "ScopeClosed", "IntervalExceeded", "SimProgError", "Interrupt")
@@ -113,7 +113,9 @@ def check(rec):
             bad("livelock", outcome[2])
     elif outcome[0] == "raise":
         meta = outcome[1]
-        if not program_made(meta):
+        documented = meta[0] == "RuntimeError" and len(meta) > 1 and \
+            str(meta[1]).startswith("'until' event was not triggered")
+        if not program_made(meta) and not documented:
             bad("foreign-exception-escaped-run", "run() ended with %r, which no program raised"
                 % (meta,))
     if rec.case.get("engine") == "sim":
